@@ -18,9 +18,23 @@ CHECKS.update({
  "C13": _k("Byte/decimal/hash conversions over byte strings of EVERY length 0..=70 with symbolic content: accepted lengths, left padding, data flow into the reduction kernels, from_hash range, set_bit on the canonical value, to_big_endian error path.", "DESIGN.md 5 (C13)"),
  "C18": _k("Kani models the dev profile (overflow checks, debug assertions, bounds checks): every harness of the linear, conversion and decoder families is decided with those checks as proof obligations over all inputs, malformed ones included.", "DESIGN.md 5 (C18)"),
 })
+def _a(text, ref, engine="A", extra=""):
+    return dict(engine=engine, technique="symbolic execution of the real tower/group source over a symbolic base field (all paths enumerated), polynomial identities mod q decided by z3" + extra,
+                text=text, design_ref=ref,
+                note="Trusted: z3; the overlay's model of Fq (= the contracts engine L proves for the limb kernels); parametricity of the generic group code in its base ring; F_q is an integral domain; Python reference written from the standard.")
+CHECKS.update({
+ "C04": _a("Every leaf (all 4-way representation dispatch x equal / opposite / independent / j=0-automorphism-related / identity operands, incl. non-canonical identities) of the real generic add/sub/+=/double/neg equals the affine chord-and-tangent law as a polynomial identity over an abstract commutative ring with symbolic curve coefficient b - unbounded in the inputs; covers G1 and G2 by parametricity.", "DESIGN.md 5 (C04)"),
+ "C15": _a("== / to_affine / is_zero / normalize leaves against the cross-multiplication specification for all representatives (z = 1, symbolic z, z = 0 with arbitrary x, y).", "DESIGN.md 5 (C15)"),
+ "C12": _a("All Fq2 operations of the real fq2.rs equal arithmetic in F_q[u]/(u^2+2) as polynomial identities (all operator forms, squaring = multiplication, inverse, constants); byte layout / equality / decoding by Kani.", "DESIGN.md 5 (C12)", "A+K", "; Kani for bytes"),
+ "C17": _a("Fq4 and Fq12 multiplication, sparse multiplication, squaring, inversion, scaling, Frobenius maps (constants recomputed from q) on ALL elements equal F_q[w]/(w^12+2) as polynomial identities in up to 24 symbolic coordinates.", "DESIGN.md 5 (C17)"),
+ "C09": _a("AffineG::new leaves: Ok exactly when the decided polynomial is y^2 - x^3 - b (b = 5, 5u, and symbolic b for the generic code) and, for G2, the z-coordinate of (r-1)P + P (node-identical to the one computed with the verified group operations) is decided zero; the scalar is r-1; every decoder funnels through it (Kani).", "DESIGN.md 5 (C09)", "A+K", "; Kani for the decoder funnel"),
+ "C16": _a("Inductive-step composition: from arbitrary representatives every group operation returns a representative of the correct element and every observer depends only on the element; re-runs the C04/C15 obligations on the input classes histories produce (non-canonical identities, un-normalised values).", "DESIGN.md 5 (C16)"),
+})
+CHECKS["C10"]["engine"] = "K+A"
+CHECKS["C11"]["engine"] = "K+A"
 NOT_APPLICABLE = {
  "C01": "Bilinearity/non-degeneracy are theorems about Miller functions of degree ~2^65 in the inputs, not a bounded computation: no loop bound or input bound exists under which the real code still computes the SM9 pairing, and one symbolic Montgomery multiplication already exceeds CBMC (20 min, no verdict); the decidable mechanisms are checked under C03/C17.",
  "C02": "Byte-exact end-to-end value of a 65-iteration Miller loop plus a ~3000-bit exponentiation (~10^5 Montgomery multiplications, bit-precisely) cannot be encoded within reach of CBMC/z3; tower, Frobenius constants, final exponentiations and line functions are decided under C17.",
 }
-for p in ["C03","C04","C05","C09","C12","C14","C15","C16","C17"]:
+for p in ["C03","C05","C14"]:
     NOT_APPLICABLE[p] = PENDING
